@@ -942,4 +942,12 @@ example : SegX.simple (.ingredient1 { mods := [.and], name := [tk .word ['x']] }
     SegX.simple (.ingredient1 { mods := [.plus], name := [tk .word ['x']] }) = false ∧
     SegX.simple (.timer C01_exTimer {}) = false := by decide
 
+/-- The side condition "plain definition" of `C01_recipe_steps` in closed form: a component whose
+    modifier characters are among `@ - ?` (any number, any order; neither `&` nor `+`) carries
+    neither the REF nor the NEW flag. -/
+theorem C01_plain_modifiers (mods : List TK) (h : mods.all (fun k => k != .and && k != .plus) = true) :
+    plainMods (modsOf mods) := rtr_modsOf_plain mods h
+
+example : [TK.minus, .question, .at].all (fun k => k != .and && k != .plus) = true := by decide
+
 end Cook
